@@ -44,6 +44,60 @@ fn emit(out: &mut Out, m: &Message, src: &str) {
     }
 }
 
+/// signal descriptors set through the typed public API (SigId::new), not through serde: out-of-table bands and attributes
+fn with_sig(m: &Message, k: usize, band: u8, attr: char) -> Option<Message> {
+    use rtcm_rs::msg::*;
+    macro_rules! msm {
+        ($t:ident, $sid:ident) => {{
+            let mut t = $t.clone();
+            let n = t.data_segment.signal_data.len();
+            if n == 0 {
+                return None;
+            }
+            t.data_segment.signal_data.as_mut_slice()[k % n].signal_id = $sid::new(band, attr);
+            t
+        }};
+    }
+    Some(match m {
+        Message::Msg1059(t) => {
+            let mut t = t.clone();
+            let n = t.biases.len();
+            if n == 0 {
+                return None;
+            }
+            t.biases.as_mut_slice()[k % n].signal_id = GpsSigId::new(band, attr);
+            Message::Msg1059(t)
+        }
+        Message::Msg1065(t) => {
+            let mut t = t.clone();
+            let n = t.biases.len();
+            if n == 0 {
+                return None;
+            }
+            t.biases.as_mut_slice()[k % n].signal_id = GloSigId::new(band, attr);
+            Message::Msg1065(t)
+        }
+        Message::Msg1230(t) => {
+            let mut t = t.clone();
+            let n = t.glo_code_phase_biases.len();
+            if n == 0 {
+                return None;
+            }
+            t.glo_code_phase_biases.as_mut_slice()[k % n].signal_id = GloSigId::new(band, attr);
+            Message::Msg1230(t)
+        }
+        Message::Msg1074(t) => Message::Msg1074(msm!(t, GpsSigId)),
+        Message::Msg1077(t) => Message::Msg1077(msm!(t, GpsSigId)),
+        Message::Msg1084(t) => Message::Msg1084(msm!(t, GloSigId)),
+        Message::Msg1095(t) => Message::Msg1095(msm!(t, GalSigId)),
+        Message::Msg1106(t) => Message::Msg1106(msm!(t, SbasSigId)),
+        Message::Msg1117(t) => Message::Msg1117(msm!(t, QzssSigId)),
+        Message::Msg1124(t) => Message::Msg1124(msm!(t, BdsSigId)),
+        Message::Msg1131(t) => Message::Msg1131(msm!(t, NavicSigId)),
+        _ => return None,
+    })
+}
+
 pub fn rec_serde(a: &Args, out: &mut Out) {
     let mut r = rng(a.seed(), 20);
     let per_type = a.num("per_type", 6) as usize;
@@ -63,6 +117,27 @@ pub fn rec_serde(a: &Args, out: &mut Out) {
             if let Ok(Some(m)) = guarded(|| decode_frame(&f)) {
                 if m.number().is_some() {
                     emit(out, &m, "hostile-decoded");
+                }
+            }
+        }
+    }
+    // signal descriptors outside the tables, constructed through SigId::new (one-, two- and three-digit bands, attributes that
+    // are digits, quotes, NUL, non-ASCII): they are ordinary public values and must survive like any other
+    let bands = [0u8, 1, 3, 9, 10, 11, 19, 25, 99, 100, 101, 199, 255];
+    let attrs = ['C', 'X', '\u{0}', '1', '0', '"', '\\', ' ', 'é', '\u{a4}', '漢', '\u{10ffff}', ','];
+    for &num in &[1059u16, 1065, 1230, 1074, 1077, 1084, 1095, 1106, 1117, 1124, 1131] {
+        if !nums.contains(&num) {
+            continue;
+        }
+        let mut k = 0usize;
+        for _ in 0..6 {
+            if let Some(t) = template(&mut r, num) {
+                for (i, &b) in bands.iter().enumerate() {
+                    let a = attrs[(i + k) % attrs.len()];
+                    if let Some(m) = with_sig(&t, k, b, a) {
+                        emit(out, &m, "sigid-api");
+                    }
+                    k += 1;
                 }
             }
         }
